@@ -1403,6 +1403,25 @@ def _cond_wait(I, self, args, kw, fr, site):
     timeout = args[0] if args else kw.get("timeout", NONE)
     I.st.events.append(("cond.wait", self, timeout))
     I.E.on_wait(I, self, timeout, fr, site)
+    if "wait_budget" in I.E.ghost_types and not isinstance(timeout, VNone):
+        # ghost time budget (C25): what is left of the caller's timeout.  A wait may take as long as its argument, so that
+        # argument must fit the budget; it then consumes some d in [0, t], and the ghost clock read by time.time() moves
+        # on by at least d
+        st = I.st
+        bud = st.ghost.get("wait_budget")
+        if bud is None:
+            bud = I.fresh_of_type("float", "ghost.wait_budget")
+            st.ghost["wait_budget"] = bud
+            st.ghost_init["wait_budget"] = bud
+        t = timeout.t if isinstance(timeout, VFloat) else z3.ToReal(zint(timeout.t))
+        st.oblige("%s::wait-fits-what-is-left-of-the-timeout::%s" % (fr.finfo.qualname, site), t <= bud.t)
+        d = z3.Real(st.fresh_name("waited"))
+        st.assume(z3.And(d >= 0, d <= t))
+        st.ghost["wait_budget"] = VFloat(simp(bud.t - d))
+        last = st.ghost.get("__now")
+        if last is None:
+            last = z3.Real(st.fresh_name("now"))
+        st.ghost["__now"] = simp(last + d)
     if "unbounded_waits" in I.E.ghost_types and isinstance(timeout, VNone):
         # ghost counter of waits that no timeout bounds (progress obligations, C13)
         cur = I.st.ghost.get("unbounded_waits")
